@@ -169,7 +169,7 @@ theorem accepted_sound (m : Mon) (x : MS) (hi : MInv x) (ha : Agree m x) (cl : C
   cases hp : m.prev with
   | none =>
     simp only
-    have hd0 : m.defs = [] := by rw [ha.defs]; exact ha.first hp
+    have hd0 : m.defs = [] := by rw [ha.defs]; exact (ha.first hp).1
     obtain ⟨a, b⟩ := fin_sound cl none m ⟨c', x.defs⟩ true none rfl hi'.tl
       (by show (ghostStep m cl _ none).defs = x.defs; rw [ghostStep_defs]; exact ha.defs)
       (by
@@ -221,10 +221,21 @@ theorem def_sound (m : Mon) (x : MS) (hi : MInv x) (ha : Agree m x) (t f : Nat) 
   simp only
   obtain ⟨a, b⟩ := finDef_sound { m with defs := x.defs ++ [⟨t, f, args, pid, s⟩] }
     ⟨x.c, x.defs ++ [(⟨t, f, args, pid, s⟩ : Operation)]⟩ true (some (sameTuples x.defs ⟨t, f, args, pid, s⟩))
-    (verdictDef m ⟨t, f, args, pid, s⟩ (modelDef x ⟨t, f, args, pid, s⟩).2)
+    (firstSome (initBad m (modelDef x ⟨t, f, args, pid, s⟩).2) (verdictDef m ⟨t, f, args, pid, s⟩ (modelDef x ⟨t, f, args, pid, s⟩).2))
     (by
+      have hib : initBad m (modelDef x ⟨t, f, args, pid, s⟩).2 = none := by
+        unfold initBad
+        rw [if_neg]
+        rintro ⟨hn, hany⟩
+        have hpn : m.prev = none := by cases hm : m.prev <;> simp_all
+        have hr := (ha.first hpn).2
+        simp only [modelDef, modelObs, modelRadm, List.any_map, List.any_eq_true] at hany
+        obtain ⟨r, _, hr'⟩ := hany
+        simp [hr r] at hr'
+      rw [hib]
       unfold verdictDef
-      rw [if_neg (by rw [ha.defs]; simp [modelDef, modelObs])])
+      rw [if_neg (by rw [ha.defs]; simp [modelDef, modelObs])]
+      rfl)
     hi.tl rfl (fun id => by rw [get_defs]; exact ha.ghost id)
   refine ⟨a, b, ⟨hi.tl, hi.ac, hi.self, ?_⟩⟩
   intro id hne
